@@ -15,6 +15,7 @@ From Ark Require Import Model.Base Model.Mask Model.Pool Model.World Model.Run.
 From Ark Require Import Proofs.LockSpec Proofs.LockProofs Proofs.LockWorld Properties.Common.
 From Ark Require Import Model.Util Proofs.Rel2Defs Proofs.Rel2Hist Proofs.Rel2HistQ Proofs.Rel2HistQL.
 From Ark Require Import Proofs.ObsErase Proofs.Rel2HistO.
+From Ark Require Import Proofs.ObsLockInv Proofs.Rel2HistOL.
 
 Theorem C07_mask_exact :
   forall ops b, let g := lrun ops in mk_get (lk_mask (lg_lock g)) b = true <-> In b (lg_held g).
@@ -122,5 +123,68 @@ Theorem C07_reachable_locked_structural_unchanged_with_observers :
          fst (step (sc_debug c) wd (exec c lines) line) = exec c lines.
 Proof. exact reachable_locked_structural_unchanged_O. Qed.
 
-Definition C07_all := (C07_reachable_locked_structural_unchanged_with_observers, C07_locked_iff_some_query_open, C07_open_queries_hold_distinct_bits, C07_close_always_succeeds, C07_reachable_locked_structural_unchanged, C07_history_examples, C07_mask_exact, C07_held_distinct_below_64, C07_locked_iff_held, C07_lock_fresh_or_exhausted, C07_unlock_balanced, C07_structural_blocked, C07_reads_do_not_change_state).
+(** ** Lock bits, open queries and the observer manager over histories WITH callbacks (ObsLockInv / Rel2HistOL).
+    The class is [rel_o_line] of Rel2HistO: everything above plus observer creation, Register, Unregister and Emit, with
+    arbitrary arguments and callbacks of any kind (passive, unregistering themselves, unregistering another observer). *)
+
+(** Every reachable state satisfies the storage invariant [Inv2O], the lock / query clause [LQ] (unchanged: between two
+    operations no callback bit is held) and the manager invariant [MInvO]. *)
+Theorem C07_lock_queries_manager_invariant_with_callbacks : forall c lines,
+  cfg_ok2 c -> Forall (rel_o_line (sc_kinds c)) lines -> length lines + 4 < Nat.pow 2 31 ->
+  Inv2OL (Properties.Common.exec c lines) (length lines).
+Proof. exact reachable_inv2OL. Qed.
+
+Theorem C07_locked_iff_some_query_open_with_callbacks : forall c lines,
+  cfg_ok2 c -> Forall (rel_o_line (sc_kinds c)) lines -> length lines + 4 < Nat.pow 2 31 ->
+  let s := Properties.Common.exec c lines in
+  is_locked s = true <-> exists qi q, nth_error (w_queries s) qi = Some q /\ 1 <= q_tab q.
+Proof. exact reachable_locked_iff_open_O. Qed.
+
+Theorem C07_open_queries_hold_distinct_bits_with_callbacks : forall c lines,
+  cfg_ok2 c -> Forall (rel_o_line (sc_kinds c)) lines -> length lines + 4 < Nat.pow 2 31 ->
+  let s := Properties.Common.exec c lines in
+  (forall qi q, nth_error (w_queries s) qi = Some q -> 1 <= q_tab q -> mk_get (lk_mask (w_lock s)) (q_lock q) = true) /\
+  (forall qi qj q q', nth_error (w_queries s) qi = Some q -> nth_error (w_queries s) qj = Some q' ->
+     1 <= q_tab q -> 1 <= q_tab q' -> q_lock q = q_lock q' -> qi = qj) /\
+  (forall b, mk_get (lk_mask (w_lock s)) b = true ->
+     exists qi q, nth_error (w_queries s) qi = Some q /\ 1 <= q_tab q /\ q_lock q = b).
+Proof. exact reachable_open_bits_O. Qed.
+
+Theorem C07_close_always_succeeds_with_callbacks : forall c lines qi q,
+  cfg_ok2 c -> Forall (rel_o_line (sc_kinds c)) lines -> length lines + 4 < Nat.pow 2 31 ->
+  nth_error (w_queries (Properties.Common.exec c lines)) qi = Some q ->
+  exists s', step_op (sc_debug c) (OQueryClose qi) (Properties.Common.exec c lines) = Ok [] s' /\ LQ s' /\
+    (exists q', nth_error (w_queries s') qi = Some q' /\ q_tab q' = 0).
+Proof. exact reachable_close_ok_O. Qed.
+
+(** At most 64 queries are open (one lock bit each). *)
+Theorem C07_at_most_64_open_queries : forall c lines,
+  cfg_ok2 c -> Forall (rel_o_line (sc_kinds c)) lines -> length lines + 4 < Nat.pow 2 31 ->
+  r2ol_open_count (Properties.Common.exec c lines) <= 64.
+Proof. exact reachable_held_count_O. Qed.
+
+(** In every reachable UNLOCKED state a structural operation with observers has exactly the outcome of the same operation
+    on the world without observers: no callback fails, and the lock bit taken around the removal events of Remove /
+    Exchange / SetRelations / RemoveEntity is released ([LQ] holds afterwards, in both outcomes). *)
+Theorem C07_structural_operations_release_their_lock_bit : forall c lines o,
+  cfg_ok2 c -> Forall (rel_o_line (sc_kinds c)) lines -> length lines + 4 < Nat.pow 2 31 ->
+  let s := Properties.Common.exec c lines in
+  oe_struct_op o = true -> is_locked s = false -> (forall c0, In c0 (rel_op_ids o) -> c0 < length (sc_kinds c)) ->
+  step_op (sc_debug c) o (oe_E s) = oe_rmap (step_op (sc_debug c) o s) /\ LQ (state_of (step_op (sc_debug c) o s)) /\
+  MInvO (state_of (step_op (sc_debug c) o s)).
+Proof. exact reachable_struct_exact. Qed.
+
+(** Emit (callbacks while queries may be open) fails only if its arguments are rejected, or with EBits when all 64 lock bits
+    are held by open queries; the state is untouched then. *)
+Theorem C07_emit_fails_only_when_rejected_or_64_queries_open : forall c lines evt h comps er s',
+  cfg_ok2 c -> Forall (rel_o_line (sc_kinds c)) lines -> length lines + 4 < Nat.pow 2 31 ->
+  let s := Properties.Common.exec c lines in
+  step_op (sc_debug c) (OEmit evt h comps) s = Err er s' ->
+  s' = s /\ (r2ol_emit_args evt h comps s = Err er s \/
+             (er = EBits /\ r2ol_open_count s = 64 /\ exists a, r2ol_emit_args evt h comps s = Ok (Some a) s)).
+Proof. exact reachable_emit_err. Qed.
+
+Definition C07_callback_examples := (r2ol_script_inv, r2ol_mid_inv, r2ol_mid_shape, r2ol_remove_example, r2ol_erasure_example, r2ol_full_emit, r2ol_63_emit).
+
+Definition C07_all := (C07_lock_queries_manager_invariant_with_callbacks, C07_locked_iff_some_query_open_with_callbacks, C07_open_queries_hold_distinct_bits_with_callbacks, C07_close_always_succeeds_with_callbacks, C07_at_most_64_open_queries, C07_structural_operations_release_their_lock_bit, C07_emit_fails_only_when_rejected_or_64_queries_open, C07_callback_examples, C07_reachable_locked_structural_unchanged_with_observers, C07_locked_iff_some_query_open, C07_open_queries_hold_distinct_bits, C07_close_always_succeeds, C07_reachable_locked_structural_unchanged, C07_history_examples, C07_mask_exact, C07_held_distinct_below_64, C07_locked_iff_held, C07_lock_fresh_or_exhausted, C07_unlock_balanced, C07_structural_blocked, C07_reads_do_not_change_state).
 Print Assumptions C07_all.
